@@ -400,6 +400,26 @@ Definition shell_split (s : bytes) : sres :=
   else if is_empty strs then SErr else SOk strs.
 
 
+(* ------------------------------------------------------------------ pflag Set on an existing value *)
+(* Duration.Set / ForgetPolicyCount.Set: parse into a temporary, assign only on success *)
+Definition dur4 := (Z * Z * Z * Z)%type.
+Definition dur_of4 (q : dur4) : dur := let '(y, m, d, h) := q in mkdur y m d h.
+Definition dur_to4 (d : dur) : dur4 := (d_years d, d_months d, d_days d, d_hours d).
+Definition dur_set (cur : dur) (s : bytes) : bool * dur :=
+  match parse_duration s with DOk d => (true, d) | _ => (false, cur) end.
+Fixpoint dur_set_seq (cur : dur) (l : list bytes) : list (bool * dur4) :=
+  match l with
+  | [] => []
+  | s :: r => let (ok, d) := dur_set cur s in (ok, dur_to4 d) :: dur_set_seq d r
+  end.
+Definition count_set (cur : Z) (s : bytes) : bool * Z :=
+  match policy_count_set s with COk v => (true, v) | _ => (false, cur) end.
+Fixpoint count_set_seq (cur : Z) (l : list bytes) : list (bool * Z) :=
+  match l with
+  | [] => []
+  | s :: r => let (ok, v) := count_set cur s in (ok, v) :: count_set_seq v r
+  end.
+
 (* ------------------------------------------------------------------ cases *)
 Inductive input :=
   | IUint (s : bytes) | IInt (s : bytes) | IAtoi (s : bytes)        (* strconv behaviour relied on *)
@@ -409,12 +429,15 @@ Inductive input :=
   | ICount (s : bytes)                                             (* ForgetPolicyCount.Set *)
   | IFlags (rd : bool) (s : bytes) (f : fclass)                    (* checkFlags *)
   | IOpts (l : list bytes)                                         (* options.Parse *)
-  | ISplit (s : bytes).                                            (* backend.SplitShellStrings *)
+  | ISplit (s : bytes)                                             (* backend.SplitShellStrings *)
+  | ISetSeq (init : dur4) (l : list bytes)                         (* Duration.Set, repeatedly on one variable *)
+  | ICountSeq (init : Z) (l : list bytes).                         (* ForgetPolicyCount.Set, repeatedly *)
 
 Inductive obs :=
   | OPanic | OErr | OErrSyntax | OErrRange
   | OZ (v : Z) | ODur (y m d h : Z) | OPrint (p : bytes) (r : obs)
-  | OUnit | OMap (l : omap) | OList (l : list bytes).
+  | OUnit | OMap (l : omap) | OList (l : list bytes)
+  | OSeqD (l : list (bool * dur4)) | OSeqC (l : list (bool * Z)).   (* (Set succeeded, value afterwards) *)
 
 Definition obs_of_pres (r : pres) : obs :=
   match r with POk v => OZ v | PErr ESyntax => OErrSyntax | PErr ERange => OErrRange end.
@@ -433,9 +456,16 @@ Definition model (i : input) : obs :=
   | IFlags rd s f => match check_flags rd s f with FOk => OUnit | FBad => OErr | FPanic => OPanic end
   | IOpts l => match options_parse l with OpOk m => OMap m | OpErr => OErr end
   | ISplit s => match shell_split s with SOk l => OList l | SErr => OErr | SPanic => OPanic end
+  | ISetSeq init l => OSeqD (dur_set_seq (dur_of4 init) l)
+  | ICountSeq init l => OSeqC (count_set_seq init l)
   end.
 
 Definition pair_eqb (a b : bytes * bytes) : bool := (bytes_eqb (fst a) (fst b) && bytes_eqb (snd a) (snd b))%bool.
+
+Definition dur4_eqb (a b : dur4) : bool :=
+  let '(y1, m1, d1, h1) := a in let '(y2, m2, d2, h2) := b in ((y1 =? y2) && (m1 =? m2) && (d1 =? d2) && (h1 =? h2))%bool.
+Definition stepd_eqb (a b : bool * dur4) : bool := (Bool.eqb (fst a) (fst b) && dur4_eqb (snd a) (snd b))%bool.
+Definition stepc_eqb (a b : bool * Z) : bool := (Bool.eqb (fst a) (fst b) && (snd a =? snd b))%bool.
 
 Fixpoint obs_eqb (a b : obs) : bool :=
   match a, b with
@@ -445,6 +475,8 @@ Fixpoint obs_eqb (a b : obs) : bool :=
   | OPrint p1 r1, OPrint p2 r2 => (bytes_eqb p1 p2 && obs_eqb r1 r2)%bool
   | OMap l1, OMap l2 => list_eqb pair_eqb l1 l2
   | OList l1, OList l2 => list_eqb bytes_eqb l1 l2
+  | OSeqD l1, OSeqD l2 => list_eqb stepd_eqb l1 l2
+  | OSeqC l1, OSeqC l2 => list_eqb stepc_eqb l1 l2
   | _, _ => false
   end.
 
